@@ -3,3 +3,4 @@ import YardlProofs.WireStream
 import YardlProofs.WirePrefix
 import YardlProofs.StreamsW
 import YardlProofs.StreamsR
+import YardlProofs.Batch
